@@ -141,6 +141,7 @@ class _Normalizer:
                 if isinstance(st, ast.AugAssign) and isinstance(st.target, ast.Name):
                     aug.add(st.target.id)
             self.globals_rebound |= aug
+            self._each_function(m, self._memo_elision)
             self._each_function(m, self._guard_identity)
             for rnd in range(5):
                 before = self.stats['inlined_calls'] + self.stats.get('fused_generators', 0)
@@ -163,6 +164,7 @@ class _Normalizer:
                 self._field_class_cache = None      # helpers are inlined by now: factories have become constructor calls
                 self._each_function(m, self._inline_properties)
             self._each_function(m, self._fold_function)
+            self._each_function(m, self._tabulated_functions)
             self._each_function(m, self._table_dispatch)
             self._each_function(m, self._prune_constant_tests)
             self._each_function(m, self._data_driven)
@@ -237,6 +239,74 @@ class _Normalizer:
                 del blk[i - 1]
                 i -= 1
                 self.stats['copy_once'] = self.stats.get('copy_once', 0) + 1
+        ast.fix_missing_locations(fnode)
+
+    # ------------------------------------------------------------------ 9e. tabulated functions
+    def _tabulated(self):
+        """{table name: (loop variable, value expression, domain)} for module-level ``T = {x: E(x) for x in <constant items>}`` that
+        nothing writes to: a precomputed table of a function's values"""
+        got = getattr(self, '_tab_cache', None)
+        if got is None:
+            got = {}
+            self._tab_cache = got
+        if self.m.name not in got:
+            tabs = {}
+            for name, vals in self.m.assigns.items():
+                if len(vals) != 1 or not isinstance(vals[0], ast.DictComp):
+                    continue
+                d = vals[0]
+                if len(d.generators) != 1 or d.generators[0].ifs or not isinstance(d.generators[0].target, ast.Name) \
+                        or not (isinstance(d.key, ast.Name) and d.key.id == d.generators[0].target.id):
+                    continue
+                if self.repo.table_writers(self.m.name, name):
+                    continue
+                try:
+                    dom = self.repo.fold(ast.Call(func=ast.Name(id='tuple', ctx=ast.Load()), args=[d.generators[0].iter], keywords=[]), self.m)
+                except Exception:
+                    it = d.generators[0].iter
+                    dom = None
+                    if isinstance(it, ast.Call) and isinstance(it.func, ast.Name) and it.func.id == 'range' and not it.keywords \
+                            and all(isinstance(a, ast.Constant) and type(a.value) is int for a in it.args) and 1 <= len(it.args) <= 3:
+                        dom = tuple(range(*[a.value for a in it.args]))
+                if not isinstance(dom, tuple) or not dom or len(dom) > 256:
+                    continue
+                x = d.generators[0].target.id
+                if any(isinstance(y, (ast.Lambda, ast.Yield, ast.NamedExpr, ast.ListComp, ast.GeneratorExp, ast.DictComp)) for y in ast.walk(d.value)):
+                    continue
+                tabs[name] = (x, d.value, dom)
+            got[self.m.name] = tabs
+        return got[self.m.name]
+
+    def _tabulated_functions(self, fnode, cls, local):
+        """``TABLE[k]`` with TABLE a precomputed ``{x: E(x) for x in items}`` reads as ``E(k)``: the table holds exactly the values of
+        the expression (for a key outside the items the table raises KeyError where the expression may not: the rules that use the
+        value check the key's range where it matters)"""
+        tabs = self._tabulated()
+        if not tabs:
+            return
+        me = self
+
+        class T(ast.NodeTransformer):
+            def visit_FunctionDef(self_, n):
+                return n if n is not fnode else self_.generic_visit(n)
+            visit_AsyncFunctionDef = visit_FunctionDef
+
+            def visit_Subscript(self_, n):
+                n = self_.generic_visit(n)
+                if isinstance(n.ctx, ast.Load) and isinstance(n.value, ast.Name) and n.value.id in tabs and n.value.id not in local \
+                        and not isinstance(n.slice, ast.Slice) and _is_simple_or_const(n.slice):
+                    x, expr, _dom = tabs[n.value.id]
+                    k = n.slice
+
+                    class S(ast.NodeTransformer):
+                        def visit_Name(self__, y):
+                            if y.id == x and isinstance(y.ctx, ast.Load):
+                                return copy.deepcopy(k)
+                            return y
+                    me.stats['tabulated'] = me.stats.get('tabulated', 0) + 1
+                    return ast.copy_location(S().visit(copy.deepcopy(expr)), n)
+                return n
+        T().visit(fnode)
         ast.fix_missing_locations(fnode)
 
     # ------------------------------------------------------------------ 9d. copies guarded against None
@@ -2767,6 +2837,91 @@ class _Normalizer:
                 out.extend(split(st))
             return out
         fnode.body = walk_body(fnode.body)
+
+    # ------------------------------------------------------------------ 1d. caches whose key determines the value
+    def _memo_elision(self, fnode, cls, local):
+        """A function that keeps results under a *complete* key (memo.missing_inputs is empty) and does not write through what it
+        retrieves computes what it would compute without the cache: the hit test and the stores are dropped, the miss branch
+        stays.  A cache with an incomplete key stays as it is (and is reported by the Z1 rules)."""
+        from .memo import elidable, find_memos, missing_inputs, reset_at_acquisition, _sub_store, _chain, _same
+        from .srcmodel import FuncInfo
+        memos = find_memos(fnode)
+        if not memos:
+            return
+        fi = FuncInfo(self.m, cls, fnode.name, fnode, 'method' if cls is not None else 'function')
+        for m in memos:
+            if missing_inputs(self.repo, fi, m):
+                continue
+            if not elidable(fnode, m) and not reset_at_acquisition(fnode, m, self.m):
+                continue
+            for blk in _blocks(fnode):
+                for i, st in enumerate(blk):
+                    if getattr(st, 'lineno', None) != m.line:
+                        continue
+                    if m.shape == 'S' and isinstance(st, ast.If):
+                        # drop the hit test and the two slot stores
+                        slot_v = m.store
+                        test = st.test
+                        slot_k = _chain(test.left) if _chain(test.left) and _chain(test.left).split('.')[0] == slot_v.split('.')[0] \
+                            and '.' in _chain(test.left) else _chain(test.comparators[0])
+                        rest = blk[i + 1:]
+                        new_rest = []
+                        for s_ in rest:
+                            if isinstance(s_, ast.Assign) and len(s_.targets) == 1:
+                                tg, val = s_.targets[0], s_.value
+                                if isinstance(tg, ast.Tuple) and isinstance(val, ast.Tuple) and len(tg.elts) == len(val.elts):
+                                    keep = [(t_, v_) for t_, v_ in zip(tg.elts, val.elts) if _chain(t_) not in (slot_k, slot_v)]
+                                    if len(keep) != len(tg.elts):
+                                        if keep:
+                                            new_rest.append(ast.Assign(targets=[ast.Tuple(elts=[k_[0] for k_ in keep], ctx=ast.Store())],
+                                                                       value=ast.Tuple(elts=[k_[1] for k_ in keep], ctx=ast.Load())))
+                                        continue
+                                elif _chain(tg) in (slot_k, slot_v):
+                                    continue
+                            new_rest.append(s_)
+                        blk[i:] = new_rest
+                    elif m.shape == 'D1' and isinstance(st, ast.If):
+                        # the miss branch runs always, into a local; later reads of D[K] read the local
+                        self.counter += 1
+                        tmp = '__memo%d' % self.counter
+                        body = []
+                        for s_ in st.body:
+                            ss = _sub_store(s_, m.store)
+                            if ss is not None and _same(ss[1], m.key):
+                                body.append(ast.Assign(targets=[ast.Name(id=tmp, ctx=ast.Store())], value=ss[2]))
+                            else:
+                                body.append(s_)
+                        key_dump = ast.dump(m.key)
+
+                        class R(ast.NodeTransformer):
+                            def visit_Subscript(self_, n):
+                                n = self_.generic_visit(n)
+                                if isinstance(n.ctx, ast.Load) and _chain(n.value) == m.store and ast.dump(n.slice) == key_dump:
+                                    return ast.Name(id=tmp, ctx=ast.Load())
+                                return n
+                        blk[i:] = body + [R().visit(x) for x in blk[i + 1:]]
+                    elif m.shape == 'D2' and isinstance(st, ast.Try):
+                        h = st.handlers[0]
+                        body = [s_ for s_ in h.body if not (_sub_store(s_, m.store) is not None and _same(_sub_store(s_)[1], m.key))]
+                        blk[i:i + 1] = body
+                    elif m.shape in ('D3', 'A') and i + 1 < len(blk) and isinstance(blk[i + 1], ast.If):
+                        nxt = blk[i + 1]
+                        body = []
+                        for s_ in nxt.body:
+                            if m.shape == 'D3' and _sub_store(s_, m.store) is not None and _same(_sub_store(s_)[1], m.key):
+                                continue
+                            if m.shape == 'A' and isinstance(s_, ast.Expr) and isinstance(s_.value, ast.Call) and \
+                                    isinstance(s_.value.func, ast.Name) and s_.value.func.id == 'setattr':
+                                continue
+                            body.append(s_)
+                        blk[i:i + 2] = body
+                    else:
+                        continue
+                    self.stats['memo_elision'] = self.stats.get('memo_elision', 0) + 1
+                    break
+        for x in ast.walk(fnode):
+            pass
+        ast.fix_missing_locations(fnode)
 
     # ------------------------------------------------------------------ 1c. checks that hand their argument back
     def _guard_functions(self):
